@@ -38,6 +38,7 @@ worker() { # slot
         res="SKIPPED patch does not apply to HEAD"
       fi
       echo "$(date +%H:%M:%S) $tier $3 $1 :: $res" | tee -a /verif/mutants/RESULTS.txt
+      case "$res" in DETECTED*) ;; *) mkdir -p /var/tmp/pm-missed; cp $scratch.log /var/tmp/pm-missed/$1.$3.log 2>/dev/null;; esac
       rm -rf $scratch $scratch.log
     fi
     i=$((i+1))
